@@ -55,6 +55,35 @@ def world_of(docs, idtok):
     return st, objs
 
 
+def _round_vals(vals):
+    out = []
+    for v in vals:
+        if v["t"] == "float":
+            try:
+                out.append({"t": "float", "e": ["%.5g" % float(x) for x in v["e"]]})
+                continue
+            except ValueError:
+                pass
+        out.append(v)
+    return out
+
+
+def digits_only(w, r):
+    """classification of an import mismatch (not a verdict): everything agrees once floats are compared to 5 significant digits"""
+    by_id = {}
+    for y, k in r["kind"].items():
+        by_id.setdefault(r["id"][y], y)
+    for x, k in w["kind"].items():
+        if k not in ("doc", "sec", "prop"):
+            continue
+        y = by_id.get(w["id"][x])
+        if y is None or r["kind"][y] != k or r["name"][y] != w["name"][x] or r["rdfattrs"][y] != w["rdfattrs"][x]:
+            return False
+        if _round_vals(r["vals"][y]) != _round_vals(w["vals"][x]):
+            return False
+    return True
+
+
 def val_tok(v):
     return {"t": "list", "e": [W._s(x) for x in v]} if isinstance(v, list) else {"t": type(v).__name__, "e": [W._s(v)]}
 
@@ -137,7 +166,7 @@ def replay(t):
             for fmt in FORMATS:
                 for entry in ("string", "file", "reused"):
                     rec = {"fam": "rdf", "src": "model", "t": "import", "sub": sub, "ndocs": ndocs, "variant": variant, "docs": dh, "w": w,
-                           "out": "ok", "exc": "none", "fmt": fmt, "entry": entry, "imp": []}
+                           "out": "ok", "exc": "none", "fmt": fmt, "entry": entry, "imp": [], "digits_only": False}
                     try:
                         wr = RDFWriter(docs, **kw)
                         if entry == "string":
@@ -156,6 +185,7 @@ def replay(t):
                         r, robjs = world_of(loaded, idtok)
                         rec["r"] = r
                         rec["imp"] = ["d%d" % (i + 1) for i in range(len(loaded))]
+                        rec["digits_only"] = digits_only(w, r)
                     except Exception as e:
                         rec["out"], rec["exc"] = "raised", type(e).__name__
                         rec["r"] = world_of([], idtok)[0]
